@@ -134,6 +134,9 @@ Blame ==
   @@ "un.loop" :> {"C02"} @@ "un.timer" :> {"C10"} @@ "un.adv" :> {"C10", "C11"}
   @@ "oe.cancel.send" :> {"C12"} @@ "oe.cancel.call" :> {"C02"} @@ "oe.cancel.ping" :> {"C02"} @@ "oe.cancel.join" :> {"C17"}
   @@ "oe.cancel.await_ref" :> {"C04"} @@ "oe.cancel.try_halt" :> {"C04"}
+  \* (the actor an operation acted on is not the one its handle addresses)
+  @@ "oe.actor.send" :> {"C15"} @@ "oe.actor.call" :> {"C15"} @@ "oe.actor.ping" :> {"C15"} @@ "oe.actor.stop" :> {"C15"} @@ "oe.actor.restart" :> {"C15"} @@ "oe.actor.try_stop" :> {"C15"} @@ "oe.actor.try_halt" :> {"C15"} @@ "oe.actor.halt" :> {"C15"} @@ "oe.actor.await" :> {"C15"} @@ "oe.actor.await_ref" :> {"C15"} @@ "oe.actor.stopped" :> {"C15"} @@ "oe.actor.running" :> {"C15"} @@ "oe.actor.join" :> {"C15"} @@ "oe.actor.consume" :> {"C15"} @@ "oe.actor.consume_sync" :> {"C15"} @@ "oe.actor.drop" :> {"C15"} @@ "oe.actor.force_send" :> {"C15"}
+  @@ "oe.cancel.halt" :> {"C04"} @@ "oe.cancel.await" :> {"C04"} @@ "oe.cancel.consume" :> {"C17"}
   @@ "blk.timer"  :> {"C10"}
   @@ "exit.timer" :> {"C10"}
   @@ "exit.timer.afterrestart" :> {"C10", "C07", "C15"}
